@@ -53,7 +53,7 @@ CLAIMED = {
         "technique": "Coq proof (loop invariants over a model of keywordsearches.py) + differential correspondence",
     },
     "C04": {
-        "text": ("10 theorems (Coq, no axioms) over a model of Processor._delete_nodes acting on the coordinates the read "
+        "text": ("12 theorems (Coq, no axioms) over a model of Processor._delete_nodes acting on the coordinates the read "
                  "side gathered (parents addressed by object identity, reversed processing, dict / list / set "
                  "branches): C04_delete_exact_partial - when the gathered coordinates are distinct and in document "
                  "order within each parent (C04_guard_from_document_order proves that this computable condition implies the guard; true of every collector-free path) the result is the document with "
@@ -61,7 +61,9 @@ CLAIMED = {
                  "C04_root_refused / C04_root_never_deleted; _refuted witnesses for the two listed findings "
                  "(duplicate / disordered collector results F15, root among other matches F15b).  Tie: the real "
                  "delete_nodes with the coordinates captured at the entry of _delete_nodes, model vs implementation "
-                 "vs an independent judge over a shadow copy."),
+                 "vs an independent judge over a shadow copy.  C04_delete_exact_end_to_end_partial composes the "
+                 "evaluator model with the delete model (guard: doc_ordered on the query's own answer; "
+                 "C01_results_doc_ordered_refuted shows `**` + filter can gather a node twice)."),
         "design_ref": "DESIGN.md section 4 (C04), docs/C04.md",
         "note": NOTE_COMMON + "  The matched coordinates are an input of this model (obtained from the real Processor); the read side is C01/C02.",
         "technique": "Coq proof (reverse-order index lemmas over an identity-addressed document model) + differential correspondence",
@@ -260,17 +262,24 @@ CLAIMED = {
         "technique": "Coq proof (stream invariant over a fuelled evaluator model, fuel sufficiency) + differential correspondence",
     },
     "C01": {
-        "text": ("Segment-level theorems (Coq, no axioms): the key-on-hash, anchor and wildcard handlers of the "
-                 "evaluator model select exactly the nodes of the declarative segment semantics (same objects, "
-                 "order, multiplicity); exists() <-> the required query yields a node.  The path-level statement "
-                 "required = sem is NOT proved: it is evaluated on every run by an independent reference of the "
-                 "documented semantics against the real Processor (identity, order, multiplicity, both notations, "
-                 "optional == required on existing paths), next to the model/implementation correspondence.  "
-                 "Refuted with witnesses: optional query stops at a null intermediate (F10), descendant searches "
-                 "reaching several nodes (F12a)."),
-        "design_ref": "DESIGN.md section 4 (C01), docs/C01.md",
+        "text": ("15 theorems (Coq, no axioms) over the evaluator model Eval.v (processor.py's query side, Python "
+                 "generators as streams): C01_required_sem_partial - for every non-null document and every path of "
+                 "the fragment (key incl. Array-of-Hashes pass-through, index, slice, anchor, all five candidate "
+                 "loops of a search on '.', a named attribute or a descendant path, all nine operators, inversion, "
+                 "*, ** with and without a following filter) the items of the required query equal the documented "
+                 "meaning sem_doc of Spec/SpecC01.v (one declarative sel_* clause per segment kind composed by "
+                 "flat_map): same node objects, same order, none missing, none extra, and the stream ends Done "
+                 "(or Unmatched when empty); guard = the strict reading marks nothing, i.e. outside the listed "
+                 "findings F12a (descendant search reaching several nodes) and F29 (wildcard + filter over a "
+                 "set), each with a _refuted witness and non-vacuity Examples; C01_optional_on_existing_partial "
+                 "(optional = required as streams, nothing created; guard excludes F10 / F16b); exists() iff the "
+                 "required query yields a node; dot and slash texts of the same segments give equal escaped "
+                 "segments (from C08; the step to equal prepared paths is not proved).  Tie: model vs "
+                 "implementation on (location, identity) lists, plus the EXTRACTED spec and an independent "
+                 "Python reference as further opinions, on every case."),
+        "design_ref": "DESIGN.md section 4 (C01), Appendix C, docs/C01.md",
         "note": NOTE_COMMON,
-        "technique": "Coq proof (segment handlers vs declarative spec) + reference-semantics judge + differential correspondence",
+        "technique": "Coq proof (one lemma per segment handler vs a declarative spec; induction on path fuel and data) + differential correspondence + reference-semantics judge",
     },
     "C09": {
         "text": ("Two parts, both run by ./check C09.  Purity (Properties/C09.v, evaluator model Eval.v): for every "
@@ -290,15 +299,18 @@ CLAIMED = {
         "technique": "Coq proof (no-mutation stream invariant; embedding/frame lemma for creation) + snapshot differential correspondence",
     },
     "C02": {
-        "text": ("Theorems (Coq, no axioms) for the key-on-hash and wildcard handlers: parent[parentref] is the node "
-                 "and the ancestry is the context's chain plus that link.  The remaining handlers and the "
-                 "re-resolution of reported paths are NOT proved; they are checked on every run: model vs real code "
-                 "on parent identity, parentref, reported path and full ancestry of every result, and a judge that "
-                 "indexes the real parent, walks the real ancestry and re-queries str(path) in both notations.  "
-                 "Three coordinate defects fixed (#12, #20, set members); known findings F26 (keys the path syntax "
-                 "cannot name) and F27 ([&anchor] paths matching other nodes)."),
+        "text": ("5 theorems (Coq, no axioms) over the evaluator model: for every real result of every path of the "
+                 "C01 fragment (slices only as the last segment) the parent holds the node under the parentref "
+                 "(hash: membership of the pair with an equal key; sequence: the element at the index; set: "
+                 "membership) and the ancestry chain walks from the document root, each link a child step, to the "
+                 "node (C02_results_located, C02_parentref, C02_ancestry).  The re-resolution of the reported PATH "
+                 "TEXT is not proved yet: it is checked on every run - model vs real code on parent identity, "
+                 "parentref, reported path (as parsed segments) and the full ancestry of every result, and a "
+                 "judge that indexes the real parent, walks the real ancestry and re-queries str(path) in both "
+                 "notations; known findings F26 (keys the path syntax cannot name) and F27 ([&anchor] paths "
+                 "matching other nodes)."),
         "design_ref": "DESIGN.md section 4 (C02), docs/C02.md",
         "note": NOTE_COMMON,
-        "technique": "Coq proof (handler-level coordinate lemmas) + differential correspondence + re-resolution judge",
+        "technique": "Coq proof (coordinate invariant through every handler, induction on path fuel and data) + differential correspondence + re-resolution judge",
     },
 }
